@@ -33,10 +33,12 @@ type runVariant struct {
 	inPath  string // stdin | dash | file
 	outFile bool
 	prefill bool // the -o file exists already and is longer than the new output
+	inPlace bool // FILE input and -o name the same file
+	devNull bool // standard input is /dev/null instead of a pipe (commands that read nothing, or an empty input)
 }
 
 func (v runVariant) String() string {
-	return fmt.Sprintf("procs=%d race=%v debug=%v in=%s out-o=%v existing-file=%v", v.procs, v.race, v.debug, v.inPath, v.outFile, v.prefill)
+	return fmt.Sprintf("procs=%d race=%v debug=%v in=%s out-o=%v existing-file=%v in-place=%v stdin-devnull=%v", v.procs, v.race, v.debug, v.inPath, v.outFile, v.prefill, v.inPlace, v.devNull)
 }
 
 // runClass executes one variant and returns (success, output bytes, result).
@@ -54,21 +56,30 @@ func runClass(c *core.Ctx, cl detClass, v runVariant) (bool, []byte, *runner.Res
 	if v.debug {
 		args = append(args, "--debug")
 	}
+	if v.devNull {
+		opt.Stdin = nil // the runner then leaves stdin connected to /dev/null
+	}
+	var inFile string
 	if cl.input != nil {
 		switch v.inPath {
 		case "dash":
 			opt.Stdin = cl.input
 			args = append(args, "-")
 		case "file":
-			args = append(args, c.Scratch.File("c12.in", cl.input))
+			inFile = c.Scratch.File("c12.in", cl.input)
+			args = append(args, inFile)
 		default:
-			opt.Stdin = cl.input
+			if !v.devNull {
+				opt.Stdin = cl.input
+			}
 		}
 	}
 	var outPath string
 	if v.outFile {
 		outPath = c.Scratch.Path("c12.out")
-		if v.prefill {
+		if v.inPlace && inFile != "" {
+			outPath = inFile
+		} else if v.prefill {
 			os.WriteFile(outPath, bytes.Repeat([]byte("previous content of the output file\n"), 40000), 0o644)
 		}
 		args = append(args, "-o", outPath)
@@ -188,7 +199,31 @@ func checkC12(c *core.Ctx) {
 		add("info chord describe/user-dict zx", []string{"info", "chord", "describe", "-t", "Czx", "--chord", cf, "--attr", af}, nil, false, true)
 		add("info chord list/user-dict", []string{"info", "chord", "list", "--chord", cf, "--attr", af}, nil, false, true)
 		add("info attr list/user-dict", []string{"info", "attr", "list", "--attr", af}, nil, false, true)
+		// several files that redefine the same names: the last file given wins, whatever order they finish loading in
+		var cfs, afs []string
+		for k := 0; k < 4; k++ {
+			cfs = append(cfs, c.Scratch.File(fmt.Sprintf("multi-%c.yml", 'z'-k), chordsYAML([]userChord{
+				{Name: "Zmulti", Display: "zmu", Attrs: []string{"Perfect1", fmt.Sprintf("Major%d", 2+k)}},
+				{Name: fmt.Sprintf("Zonly%d", k), Display: fmt.Sprintf("zo%d", k), Attrs: []string{"Perfect1", "Zq4"}},
+			})))
+			afs = append(afs, c.Scratch.File(fmt.Sprintf("multi-attr-%c.yml", 'z'-k), attrsYAML([]userAttr{{Name: "Zq4", Degree: fmt.Sprint(4 + k)}, {Name: fmt.Sprintf("Zextra%d", k), Degree: "b3"}})))
+		}
+		multi := []string{}
+		for k := range cfs {
+			multi = append(multi, "--chord", cfs[k], "--attr", afs[k])
+		}
+		mdoc := []byte("- chord: {degree: \"1\", name: \"zmu\"}\n  values: [1]\n- chord: {degree: \"5\", name: \"zo2\"}\n  values: [1]\n")
+		add("write/multi-dict", append([]string{"write"}, multi...), mdoc, true, true)
+		add("write event/multi-dict", append([]string{"write", "event"}, multi...), mdoc, true, true)
+		add("info chord list/multi-dict", append([]string{"info", "chord", "list"}, multi...), nil, false, true)
+		add("info attr list/multi-dict", append([]string{"info", "attr", "list"}, multi...), nil, false, true)
+		add("info chord describe/multi-dict", append([]string{"info", "chord", "describe", "-t", "Czmu"}, multi...), nil, false, true)
+		add("info chord list/multi-dict-comma", []string{"info", "chord", "list", "--chord", strings.Join(cfs, ",")}, nil, false, true)
 	}
+	// empty documents: the same answer over a pipe, a FILE, - and with stdin at /dev/null
+	add("write parse/empty", []string{"write", "parse"}, []byte(""), true, true)
+	add("write conv/empty", []string{"write", "conv", "-c", "cmt"}, []byte(""), true, true)
+	add("write/empty", []string{"write"}, []byte(""), true, true)
 	c.Extra("classes", len(classes))
 
 	reps := c.N(8, 40)
@@ -240,6 +275,17 @@ func checkC12(c *core.Ctx) {
 			v.outFile = true
 			variants = append(variants, v)
 			v.prefill = true
+			variants = append(variants, v)
+			if cl.reads && cl.input != nil {
+				v.prefill = false
+				v.inPath = "file"
+				v.inPlace = true
+				variants = append(variants, v)
+			}
+		}
+		if cl.input == nil || len(cl.input) == 0 {
+			v := base
+			v.devNull = true
 			variants = append(variants, v)
 		}
 		for k := 0; k < combos; k++ {
